@@ -154,8 +154,8 @@ def reach_state(obj, state):
         obj.motors_disable()
 
 
-def check_motors(state, requests, via_library):
-    board = EBB3Board(future=True, nickname="Axi")
+def check_motors(state, requests, via_library, version="3.0.2"):
+    board = EBB3Board(version=version, future=True, nickname="Axi")
     obj, port, board = new_object(board=board)
     if via_library:
         reach_state(obj, state)
@@ -302,6 +302,12 @@ def _job(job):
             part.count("ram_histories")
         elif kind == "motors":
             bad = check_motors(*item)
+            if len(item[1]) == 1:
+                # single requests again on boards that reported a newer supported firmware when
+                # they were connected (the state reached must not depend on it)
+                for version in ("3.0.3", "3.2.0"):
+                    bad += [(c, m + f" [board reported firmware {version}]")
+                            for c, m in check_motors(*item, version=version)]
             part.count("nontrivial")
         elif kind == "pair":
             bad = check_side_by_side(item)
@@ -413,6 +419,11 @@ def replay(case):
         bad = check_ram_history([tuple(op) for op in item])
     elif kind == "motors":
         bad = check_motors(tuple(item[0]), [tuple(r) for r in item[1]], item[2])
+        if len(item[1]) == 1:
+            for version in ("3.0.3", "3.2.0"):
+                bad += [(c, m + f" [board reported firmware {version}]") for c, m in
+                        check_motors(tuple(item[0]), [tuple(r) for r in item[1]], item[2],
+                                     version=version)]
     elif kind == "pair":
         bad = check_side_by_side([(w, tuple(op)) for w, op in item])
     else:
